@@ -425,6 +425,69 @@ def commutation_job(names):
     return n, out
 
 
+def inflight_streams(rep):
+    """The same receiver while the transmit side of the object has a DATA frame outstanding (the sender is suspended on its
+    acknowledgement): every stream of 2 and 3 frames over {NAK, covering / stale ACK, ERROR, RSTACK, DATA with both ackNum
+    values, a damaged frame}, in one read and byte by byte.  Nothing may raise out of the receive callback or out of the loop
+    afterwards, and what is passed up is what the reference decoder passes up."""
+    from bellows.ash import AshProtocol
+    from mc.env.ashworld import patch_time
+    from mc.vloop import VLoop
+
+    toks = {
+        "NAK0": ref_ash.wire(ref_ash.enc_nak(0)), "ACK1": ref_ash.wire(ref_ash.enc_ack(1)), "ACK0": ref_ash.wire(ref_ash.enc_ack(0)),
+        "ERROR": ref_ash.wire(ref_ash.enc_error(0x51)), "RSTACK": ref_ash.wire(ref_ash.enc_rstack(0x0B)),
+        "DATA0a1": ref_ash.wire(ref_ash.enc_data(0, 0, 1, P3)), "DATA0a0": ref_ash.wire(ref_ash.enc_data(0, 0, 0, P3)),
+        "BADCRC": TOK["BADCRC~"],
+    }
+    n = 0
+    for L in (2, 3):
+        for names in itertools.product(toks, repeat=L):
+            stream = b"".join(toks[x] for x in names)
+            for mode in ("whole", "bytewise"):
+                n += 1
+                loop = VLoop().enter()
+                msg = None
+                try:
+                    patch_time(loop)
+                    rec = Recorder()
+                    proto = AshProtocol(rec)
+                    tr = FakeTransport(loop, proto)
+                    proto.connection_made(tr)
+                    loop.settle()
+                    rec.events.clear()
+                    task = loop.create_task(proto.send_data(b"\x41\x42\x43\x44"))
+                    task.add_done_callback(lambda t: t.cancelled() or t.exception())
+                    loop.settle()
+                    ref = ref_ash.RefReceiver()
+                    exp = [e for e in ref.feed(stream) if e[0] in ("up", "reset")]
+                    try:
+                        if mode == "whole":
+                            proto.data_received(stream)
+                        else:
+                            for b in stream:
+                                proto.data_received(bytes([b]))
+                        loop.settle()
+                    except (KeyboardInterrupt, SystemExit):
+                        raise
+                    except BaseException as e:  # noqa
+                        msg = f"data_received raised {type(e).__name__}: {e}"
+                    if msg is None:
+                        esc = loop.escaped_callback_exceptions()
+                        if esc:
+                            msg = f"an exception escaped from a loop callback afterwards: {esc[0]}"
+                        elif rec.events != exp:
+                            msg = f"upward {rec.events} != reference {exp}"
+                finally:
+                    loop.shutdown()
+                if msg:
+                    rep.add_violation(f"C02|send-in-flight|{msg.split(':')[0][:50]}", f"with a host DATA frame outstanding, stream {'+'.join(names)} ({mode}): {msg}",
+                                      {"world": "c02", "kind": "inflight", "names": list(names), "mode": mode})
+                    if len(rep.violations) > 20:
+                        return n
+    return n
+
+
 def main(tier: str) -> int:
     rep = report.Report("C02", tier, "exploration")
     depth = 3 if tier == "quick" else 4
@@ -459,6 +522,7 @@ def main(tier: str) -> int:
             rep.add_violation(f"C02|stream|{'+'.join(str(x) for x in names)}|{kind}", f"stream {names} cuts {cuts}: {msg}",
                               {"world": "c02", "kind": "stream", "stream": hexs, "cuts": list(cuts)})
     lf = large_reads(rep)
+    lf += inflight_streams(rep)
     mf = cf = 0
     cstates = commutation_states(2 if tier == "quick" else 3)
     side = [("mem", j) for j in memory_jobs(tier)] + [("com", st) for st in cstates]
